@@ -1,5 +1,5 @@
 import LexVerif.Spec.Float
-import LexVerif.Proof.Tables.FloatConsts
+import LexVerif.Proof.Tables.FloatConstsDefs
 import LexVerif.Proof.Tables.SmallDefs
 import LexVerif.Model.Format
 /-!
